@@ -32,8 +32,11 @@ type Dep struct {
 	// erc20 erc721 erc1155 generic : EVM deposit through that handler
 	// unknownres noreg            : EVM deposit whose resource has no handler / an unregistered handler address
 	// rawlog otheraddr            : EVM log whose data does not unpack / (retry) log of another contract
+	// badlog                      : EVM Deposit log with one word of its ABI encoding replaced or its tail cut (Data: see badLog)
+	// subbad                      : Substrate Deposit event with one field missing / ill-typed (Data = "<field>:<variant>")
 	// sub subtt subfield subother : Substrate deposit / transfer type 1 / ill-typed nonce field / other event
 	// btc btcnopay btclowfee      : BTC transaction paying the bridge / not paying it / paying too small a fee
+	// btc2op btcnoopret           : BTC transaction with two nulldata outputs (Data = "script|script") / none
 	Kind string `json:"kind"`
 	Dest uint8  `json:"dest"`
 	// the deposit nonce the event carries (BTC: the transaction - its hash, from which the handler
@@ -60,6 +63,10 @@ type DepObs struct {
 	Out  string `json:"out,omitempty"` // what the real handler did on it alone: ok err panic skip
 	Dest uint8  `json:"dest"`          // destination of the produced message
 	Fp   uint64 `json:"fp,omitempty"`  // number of the CONTENT of the produced message within the case (fp.go); 0: none
+	// EVM / Substrate: the nonce of that message.  It is the nonce of the case unless the event itself is
+	// ill-formed where the nonce sits (badlog, subbad): such a deposit is never well-formed, and the
+	// message the adversary's choice stands for carries the nonce the handler read
+	MNonce *uint64 `json:"mn,omitempty"`
 }
 
 type Group struct {
@@ -275,7 +282,10 @@ func coqItem(d Dep, do DepObs) string {
 	case "btc":
 		// the OP_RETURN payload is what follows the two script bytes; an ill-formed or shorter script
 		// is never well-formed
-		if script, err := hex.DecodeString(d.Data); err == nil && len(script) >= 2 {
+		// only OP_RETURN + ONE direct push that is the whole rest of the script can be well-formed
+		// (canonicalBtc): for any other script - further opcodes, OP_PUSHDATAn, a lying length byte,
+		// no OP_RETURN - what the payload is is the code's own choice, the deposit counts as malformed
+		if script, err := hex.DecodeString(d.Data); err == nil && canonicalBtc(script) {
 			kind, data = "KBtc", hex.EncodeToString(script[2:])
 		}
 	}
@@ -290,7 +300,11 @@ func coqItem(d Dep, do DepObs) string {
 	default:
 		meas = "MSkip"
 	}
-	return fmt.Sprintf("(mkItem %s %s %s %s %s %s %s %s)", kind, vgen.N(uint64(d.Dest)), vgen.N(d.Nonce), vgen.Hex(mustUnhex(data)), vgen.Hex(mustUnhex(hr)), meas, vgen.N(do.Fp), coqStatus(d.Status))
+	nonce := d.Nonce
+	if kind == "KNone" && do.Out == "ok" && do.MNonce != nil && (d.Kind == "badlog" || d.Kind == "subbad") {
+		nonce = *do.MNonce
+	}
+	return fmt.Sprintf("(mkItem %s %s %s %s %s %s %s %s)", kind, vgen.N(uint64(d.Dest)), vgen.N(nonce), vgen.Hex(mustUnhex(data)), vgen.Hex(mustUnhex(hr)), meas, vgen.N(do.Fp), coqStatus(d.Status))
 }
 
 func mustUnhex(s string) []byte {
@@ -399,6 +413,6 @@ func main() {
 			}
 			return g && b
 		},
-		Rule: "per path (EVM/Substrate/BTC ProcessDeposits, EVM RetryV1, Substrate Retry): every poison of the catalogue (empty, 1 byte, guard-1, guard, length words 2^63-1 / 2^63 / 2^64-20 / 2^64+20 / 2^255 / 2^256-1, truncated tails, 1..31-byte handler responses, ERC1155 offsets outside, OP_RETURN of 0/1/2 bytes, no '_', non-numeric domain, ill-typed Substrate fields, unparsable logs, unknown resources) at every position of a range of three healthy neighbours, each poison alone at its destination among healthy deposits for other destinations, all-poison ranges, random ranges of 1..6 deposits in 1..3 events with several poisons, plus ranges whose deposits share field values (same nonce for another destination, same destination and nonce, same bytes with another nonce / destination, same recipient with another amount, a poison carrying a healthy deposit's nonce, byte-identical duplicates, a retried transaction / block named twice); HandleEvents is driven, every batch on the message channel is observed and routed through sygma-core's real Relayer.route in the child process; distinct = distinct input JSON; non-trivial = the range holds at least one poisoned and at least one well-formed deposit",
+		Rule: "per path (EVM/Substrate/BTC ProcessDeposits, EVM RetryV1, Substrate Retry): every poison of the catalogue (empty, 1 byte, guard-1, guard, length words 2^63-1 / 2^63 / 2^64-20 / 2^64+20 / 2^255 / 2^256-1, truncated tails, 1..31-byte handler responses, ERC1155 offsets outside, OP_RETURN of 0/1/2 bytes, no '_', non-numeric domain, ill-typed Substrate fields, unparsable logs, unknown resources; calldata lengths around every word boundary, 5000-byte calldata, Deposit logs with a hostile word in their ABI head or a cut tail, Substrate events with each field missing / nil / of another type / twice; OP_RETURN scripts that are not one direct push: OP_PUSHDATA1/2/4 with length 0 / exact / too long / cut, several pushes, lying length bytes, no OP_RETURN, 76..10000-byte payloads, non-ASCII / invalid UTF-8, several '_', two nulldata outputs, paying the bridge or not) at every position of a range of three healthy neighbours (quick tier: a sample of the round-4 shapes), every OP_RETURN script shape and every byte 0x00..0xff after OP_RETURN (alone, before and after a healthy payload) packed ten (thorough: three) to a block among healthy deposits, each poison alone at its destination among healthy deposits for other destinations, all-poison ranges, random ranges of 1..6 deposits in 1..3 events with several poisons, plus ranges whose deposits share field values (same nonce for another destination, same destination and nonce, same bytes with another nonce / destination, same recipient with another amount, a poison carrying a healthy deposit's nonce, byte-identical duplicates, a retried transaction / block named twice); HandleEvents is driven, every batch on the message channel is observed and routed through sygma-core's real Relayer.route in the child process; distinct = distinct input JSON; non-trivial = the range holds at least one poisoned and at least one well-formed deposit",
 	})
 }
